@@ -143,7 +143,8 @@ def handleC06 (j : Json) : Except String Verdict := do
      (if has "fmtU" then ["operand-format-U"] else []) ++ (if has "zU" then ["output-format-U"] else []) ++
      (if has "bare" then ["bare-fiber-operands"] else []) ++ (if has "shapes" then ["own-declared-shapes"] else []) ++
      (if has "fdefault" then ["fiber-default-differs"] else []) ++ (if has "reps" then ["accumulate-twice"] else []) ++
-     (if has "warm" then ["operands-reused"] else []) ++ (if has "vkind" then ["float-or-bool-values"] else [])) ++
+     (if has "warm" then ["operands-reused"] else []) ++ (if has "vkind" then ["float-or-bool-values"] else []) ++
+     (match var.getObjVal? "vkind" with | .ok (Json.str "quarter") => ["non-integral-values"] | _ => [])) ++
     (match (j.getObjVal? "univ") with | .ok (Json.arr _) => ["multi-digit-coordinates"] | _ => []) ++
     (match (j.getObjVal? "declared") with | .ok (Json.bool false) => ["shape-estimated"] | _ => []) ++
     (if pc.any (· ≥ 3) && style == .tfr then ["lazy-right-operand"] else []) ++
